@@ -123,10 +123,17 @@ static void slice_check(mu *u, uint64_t y_inv)
             S.concurrent_reqs++;
             break;
         }
-    if (!conc_ok && u->inflight_pool == seen && seen != u->cur_pool) {
-        /* a request call still in flight has already stored its target: it overrides every
-         * earlier request.  (Only if the unit has moved: a call in flight that names the pool
-         * the unit was in all along is going to be rejected and overrides nothing.) */
+    if (!conc_ok && u->inflight_pool == seen) {
+        if (seen == u->cur_pool) {
+            /* A request call in flight names the pool the unit was in all along.  Either it is
+             * going to be rejected (and overrides nothing), or it was validated long ago while
+             * the unit was elsewhere and has stored its target by now (and overrides every
+             * earlier request, whose handling then finds the unit at the target already).
+             * Which of the two is only known when the call returns: nothing can be concluded
+             * from this slice, and nothing is forgotten. */
+            return;
+        }
+        /* it has already stored its target: it overrides every earlier request */
         conc_ok = 1;
         for (int j = 0; j < nr; j++)
             u->R[j].consumed = 1;
